@@ -28,7 +28,7 @@ for d in sorted(glob.glob(os.path.join(ROOT, "seeded", "*"))):
                 break
         status = f"caught by {by} ({sig})" if sig else f"caught by {by}"
     elif res:
-        status = "MISSED by " + ", ".join(sorted(res))
+        status = "not detected by " + ", ".join(sorted(res)) + (" — " + m["verdict_note"][:160] + "…" if m.get("verdict_note") else "")
     else:
         status = "not run"
     rows.append((name, m.get("property", "?"), notes.replace("|", "/"), status.replace("|", "/")))
